@@ -14,10 +14,15 @@ package vgirpc
 //   (d) constants: for 256 points of the feature lattice the set of registered
 //       patterns, and — obtained by sending one request per registered pattern
 //       through ServeHTTP under an authenticator that always rejects — the set
-//       of patterns that answered 401 and the set that consulted the
-//       authenticator, as bit masks over the universe of pattern strings.
+//       of patterns that answered 401 (with a body that is the rejection
+//       document and nothing after it) and the set that consulted the
+//       authenticator, as bit masks over the universe of pattern strings. The
+//       probing authenticator returns a NON-NIL context together with its
+//       error: the verdict has to be a function of the error alone.
 
 import (
+	"bytes"
+	"encoding/json"
 	"fmt"
 	"io"
 	"log/slog"
@@ -224,6 +229,33 @@ func VerifC22Match(h *HttpServer, r *http.Request) (pattern, kind string) {
 	return pat, "route"
 }
 
+// VerifC22BodyKind classifies a response body: "empty", "rej401" (exactly one
+// JSON document {"error":"unauthorized",...} as writeUnauthorized renders it),
+// "rej503" / "rej500" (exactly the text authenticate answers with), "wall401"
+// (the PKCE page wall's text), or "other" - in particular a rejection body
+// followed by anything else.
+func VerifC22BodyKind(b []byte) string {
+	switch string(b) {
+	case "":
+		return "empty"
+	case "authentication service unavailable\n":
+		return "rej503"
+	case "Internal server error\n":
+		return "rej500"
+	case "Authentication required\n":
+		return "wall401"
+	}
+	dec := json.NewDecoder(bytes.NewReader(b))
+	var doc map[string]any
+	if err := dec.Decode(&doc); err != nil || doc["error"] != "unauthorized" {
+		return "other"
+	}
+	if len(bytes.TrimSpace(b[dec.InputOffset():])) != 0 {
+		return "other"
+	}
+	return "rej401"
+}
+
 // verifC22Request builds a request that the given pattern matches: wildcards
 // are replaced by a plain segment, {$} by nothing, a missing method by GET.
 func verifC22Request(pat string) *http.Request {
@@ -273,9 +305,12 @@ func verifC22Point(t VerifC22Toggles) (reg, rej, consulted map[string]bool, ok b
 	}()
 	h := NewHttpServer(NewServer())
 	calls := 0
+	// identified but refused: a NON-NIL context together with the error. The
+	// verdict must depend on the error alone.
 	auth := func(*http.Request) (*AuthContext, error) {
 		calls++
-		return nil, &AuthFailure{Reason: AuthReasonInvalidCredential}
+		return &AuthContext{Domain: "verif", Authenticated: true, Principal: VerifC22IntrospectorPrincipal},
+			&AuthFailure{Reason: AuthReasonInvalidCredential}
 	}
 	resolver := func(string) (TokenIdentity, bool, error) { return TokenIdentity{Principal: "p"}, true, nil }
 	custom := func(w http.ResponseWriter, _ *http.Request) { w.WriteHeader(http.StatusOK) }
@@ -295,7 +330,8 @@ func verifC22Point(t VerifC22Toggles) (reg, rej, consulted map[string]bool, ok b
 		calls = 0
 		rec := httptest.NewRecorder()
 		h.ServeHTTP(rec, verifC22Request(p))
-		if rec.Code == http.StatusUnauthorized {
+		// a 401 whose body is the rejection and nothing after it
+		if rec.Code == http.StatusUnauthorized && VerifC22BodyKind(rec.Body.Bytes()) != "other" {
 			rej[p] = true
 		}
 		if calls > 0 {
